@@ -1,6 +1,7 @@
 package main
 
 import (
+	"encoding/json"
 	"fmt"
 	"os"
 	"strings"
@@ -43,6 +44,23 @@ func main() {
 		}
 	case "vc":
 		cmdVC(os.Args[2:])
+	case "grammar-dump":
+		src, err := os.ReadFile(os.Args[2])
+		if err != nil {
+			fatal(err)
+		}
+		rules, err := parseYaccRules(string(src))
+		if err != nil {
+			fatal(err)
+		}
+		out := map[string][]string{}
+		for nt, alts := range rules {
+			for _, a := range alts {
+				out[nt] = append(out[nt], altString(a))
+			}
+		}
+		b, _ := json.MarshalIndent(out, "", " ")
+		fmt.Println(string(b))
 	case "relock":
 		cmdRelock(os.Args[2:])
 	case "check":
